@@ -801,7 +801,7 @@ impl Lifecycles {
     }
     fn hist(&self, idx: u64) -> Vec<super::registry::Action> {
         let a = self.alphabet();
-        digits(idx / 2, &vec![a.len() as u64; self.depth]).iter().map(|i| a[*i as usize]).collect()
+        digits(idx / 4, &vec![a.len() as u64; self.depth]).iter().map(|i| a[*i as usize]).collect()
     }
 }
 impl Family for Lifecycles {
@@ -809,7 +809,7 @@ impl Family for Lifecycles {
         format!("statement-lifecycles{}-depth-{}", if self.two { "-two-statements" } else { "" }, self.depth)
     }
     fn len(&self) -> u64 {
-        2 * (self.alphabet().len() as u64).pow(self.depth as u32)
+        4 * (self.alphabet().len() as u64).pow(self.depth as u32)
     }
     fn run(&self, idx: u64, st: &mut Stats) -> Result<(), Violation> {
         let h = self.hist(idx);
@@ -834,10 +834,15 @@ impl Family for Lifecycles {
             s.extend_from_slice(&frame(0, &p).0);
         }
         s.extend_from_slice(&frame(0, &[COM_PING]).0);
-        judge(s, &format!("{}lifecycle {:?}", if stale_client { "stale-client " } else { "" }, h.iter().map(|a| a.short()).collect::<Vec<_>>()), st)
+        // ... and the stream ends two bytes into the next packet header instead of at a boundary
+        let torn = idx % 4 >= 2;
+        if torn {
+            s.extend_from_slice(&[5, 0]);
+        }
+        judge(s, &format!("{}lifecycle {:?}{}", if stale_client { "stale-client " } else { "" }, h.iter().map(|a| a.short()).collect::<Vec<_>>(), if torn { " + 2 bytes of a header, end of stream" } else { "" }), st)
     }
     fn describe(&self, idx: u64) -> J {
-        json!({"history": self.hist(idx).iter().map(|a| a.short()).collect::<Vec<_>>(), "client_model": if idx % 2 == 1 { "stale (first prepare only)" } else { "follows every prepare" }})
+        json!({"history": self.hist(idx).iter().map(|a| a.short()).collect::<Vec<_>>(), "client_model": if idx % 2 == 1 { "stale (first prepare only)" } else { "follows every prepare" }, "stream_ends": if idx % 4 >= 2 { "two bytes into a packet header" } else { "at a packet boundary" }})
     }
 }
 
@@ -937,7 +942,7 @@ pub fn build(quick: bool) -> Check {
     Check {
         id: "C20",
         level: "model_checking",
-        rule: "client byte strings: all raw strings of length <= 5/7 over a 13-symbol alphabet of command and marker bytes (after handshake+PREPARE, and as the handshake itself); all framed payloads of length <= 2/3 over all 256 byte values; COM_STMT_EXECUTE parameter blocks (4 bitmaps x 3 flags x 256 type codes x unsigned x values of <= 3 bytes over 6 marker bytes, with and without a preceding valid bind; 1/2/9 declared parameters); every prefix of well-formed bind and reuse blocks x NULL bitmaps x pending long data x earlier bind; for 5 valid conversations and 3 handshake forms every single-byte substitution by every value (this includes every sequence id 0..255 and every length-field value on every packet), every truncation, deletion and duplication; two-fragment requests with every pair of fragment ids from a boundary set; variable-length parameter values behind every length-prefix form announcing 0..2^64-1 bytes (and every length byte for the temporal types) with 0..300 bytes present; requests of 2^24-1 bytes and more, well-formed or with a missing / lying continuation, under a read boundary at every position around each packet header and the end of the stream; every statement lifecycle of <= 4 (thorough: 6) actions over re-prepares with 1/2/3 parameters, bind/reuse executions, long data and close, encoded by a client that follows the re-prepares and by one that does not, and of <= 5 (6) actions with a second statement (prepare, execute, long data, close) next to it; query / prepare / init-db / USE texts with a multi-byte character at every byte offset 0..12, whole, cut inside the character, and behind a stray continuation byte; an SSL request (to a shim that offers TLS) followed by anything but a TLS handshake: every 1- (thorough: 2-) byte string, TLS record headers of every content type / version / length class with partial bodies, a plaintext handshake response, a recorded ClientHello with every byte damaged five ways and every truncation - the shim must never be reached. Oracle: run_on returns (Ok or Err) without panicking and within 200000 transport operations; flushed output is well-framed. Non-trivial = input differs from a valid conversation.".into(),
+        rule: "client byte strings: all raw strings of length <= 5/7 over a 13-symbol alphabet of command and marker bytes (after handshake+PREPARE, and as the handshake itself); all framed payloads of length <= 2/3 over all 256 byte values; COM_STMT_EXECUTE parameter blocks (4 bitmaps x 3 flags x 256 type codes x unsigned x values of <= 3 bytes over 6 marker bytes, with and without a preceding valid bind; 1/2/9 declared parameters); every prefix of well-formed bind and reuse blocks x NULL bitmaps x pending long data x earlier bind; for 5 valid conversations and 3 handshake forms every single-byte substitution by every value (this includes every sequence id 0..255 and every length-field value on every packet), every truncation, deletion and duplication; two-fragment requests with every pair of fragment ids from a boundary set; variable-length parameter values behind every length-prefix form announcing 0..2^64-1 bytes (and every length byte for the temporal types) with 0..300 bytes present; requests of 2^24-1 bytes and more, well-formed or with a missing / lying continuation, under a read boundary at every position around each packet header and the end of the stream; every statement lifecycle of <= 4 (thorough: 6) actions over re-prepares with 1/2/3 parameters, bind/reuse executions, long data and close, encoded by a client that follows the re-prepares and by one that does not, and of <= 5 (6) actions with a second statement (prepare, execute, long data, close) next to it, each ending at a packet boundary and two bytes into a header; query / prepare / init-db / USE texts with a multi-byte character at every byte offset 0..12, whole, cut inside the character, and behind a stray continuation byte; an SSL request (to a shim that offers TLS) followed by anything but a TLS handshake: every 1- (thorough: 2-) byte string, TLS record headers of every content type / version / length class with partial bodies, a plaintext handshake response, a recorded ClientHello with every byte damaged five ways and every truncation - the shim must never be reached. Oracle: run_on returns (Ok or Err) without panicking and within 200000 transport operations; flushed output is well-framed. Non-trivial = input differs from a valid conversation.".into(),
         assumptions: vec![
             "random bytes are not used as a deciding step (sampling is outside this family)".into(),
             "the shim iterates all parameters and reads them with into_inner(); the panicking From<Value> conversions are the shim author's calls, not run_on's".into(),
